@@ -101,10 +101,38 @@ Definition spec_int (src : list Z) : option Z :=
 Definition optZ_eqb (a b : option Z) : bool :=
   match a, b with Some x, Some y => Z.eqb x y | None, None => true | _, _ => false end.
 
+(* the Go tree has no trailing-comma bits: restore the only one that is forced
+   (a parenthesised 1-tuple) before asking whether the tree is well formed *)
+Fixpoint fix1 (e : expr) : expr :=
+  let opt (o : option expr) := match o with Some x => Some (fix1 x) | None => None end in
+  match e with
+  | Ident _ _ | Literal _ _ | EmptyTuple _ _ => e
+  | Paren lp x rp => Paren lp (fix1 x) rp
+  | Call fn lp args tc rp => Call (fix1 fn) lp (map fix1 args) tc rp
+  | Dot x dp np n => Dot (fix1 x) dp np n
+  | Index x lb y rb => Index (fix1 x) lb (fix1 y) rb
+  | Slice x lb lo hi step c2 rb =>
+    Slice (fix1 x) lb (opt lo) (opt hi) (opt step) (match step with Some _ => true | None => c2 end) rb
+  | ListE lb l tc rb => ListE lb (map fix1 l) tc rb
+  | DictE lb l tc rb => DictE lb (map fix1 l) tc rb
+  | DictEntry k cp v => DictEntry (fix1 k) cp (fix1 v)
+  | Comp c lb body cl rb => Comp c lb (fix1 body) (map fix1 cl) rb
+  | ForClause p vars ip x => ForClause p (fix1 vars) ip (fix1 x)
+  | IfClause p c => IfClause p (fix1 c)
+  | Lambda p ps b => Lambda p (map fix1 ps) (fix1 b)
+  | Cond t ifp c ep f => Cond (fix1 t) ifp (fix1 c) ep (fix1 f)
+  | Tuple l tc => Tuple (map fix1 l) (match l with [_] => true | _ => tc end)
+  | Unary p op o => Unary p op (opt o)
+  | Binary x p op y => Binary (fix1 x) p op (fix1 y)
+  end.
+
 Definition spec_ok (c : case) : bool :=
   match c with
   | CExpr ts want => wf_expr want && ends_ok ts (map fst (tokens want))
   | CInt src obs want => optZ_eqb obs (spec_int src) && optZ_eqb want (spec_int src)
+  (* a text the real parser accepts must have been given a well-parenthesised tree
+     (otherwise the tree is not one whose rendering is that text) *)
+  | CNearE _ (Some g) => wf_expr (fix1 g)
   | _ => true
   end.
 
